@@ -32,6 +32,8 @@ from .common import callee_name
 from .common import calls
 from .common import class_of
 from .common import kw
+from .common import is_text_expr
+from .common import resolved
 from .common import outermost_replace_chains
 from .common import selector_kind_flow
 
@@ -58,7 +60,7 @@ def _fstring_parts(e: ast.expr) -> Optional[List[object]]:
     return None
 
 
-def appended_part(call: ast.Call) -> Optional[ast.expr]:
+def appended_part(call: ast.Call, fn_node: Optional[ast.AST] = None) -> Optional[ast.expr]:
     """K in `parts=P.parts + (K,)`."""
     p = kw(call, "parts")
     if isinstance(p, ast.BinOp) and isinstance(p.op, ast.Add) and isinstance(p.right, ast.Tuple) and len(p.right.elts) == 1:
@@ -66,9 +68,13 @@ def appended_part(call: ast.Call) -> Optional[ast.expr]:
     return None
 
 
-def step_of_path(call: ast.Call, parent: str) -> Optional[Tuple[str, object]]:
+def step_of_path(call: ast.Call, parent: str, fn_node: Optional[ast.AST] = None) -> Optional[Tuple[str, object]]:
     """("quoted"|"bare"|"literal-quoted", step expr) of `path=` or None if malformed."""
-    parts = _fstring_parts(kw(call, "path")) if kw(call, "path") is not None else None
+    pe = kw(call, "path")
+    if fn_node is not None:
+        # pieces of text bound to locals (`suffix = f"[{i}]"`) are read through; other locals keep their names
+        pe = resolved(fn_node, pe, only=is_text_expr)
+    parts = _fstring_parts(pe) if pe is not None else None
     if not parts:
         return None
     head = parts[0]
@@ -103,11 +109,11 @@ def r3_1(ctx: Ctx) -> RuleResult:
         if parent is None or ks is None:
             raise AnalysisError(f"R3.1: cannot identify the parent at {fn.loc(call)}")
         problems: List[str] = []
-        k = appended_part(call)
+        k = appended_part(call, fn.node)
         pk = kw(call, "parts")
         if k is None or not (isinstance(pk, ast.BinOp) and path_of(pk.left) == f"{parent}.parts"):
             problems.append(f"parts is not `{parent}.parts + (<step>,)`")
-        step = step_of_path(call, parent)
+        step = step_of_path(call, parent, fn.node)
         if step is None:
             problems.append(f"path is not `{parent}.path` followed by one bracketed step")
         obj = kw(call, "obj")
